@@ -25,6 +25,8 @@ import vlib
 from vlib import Report, prelude, build_driver, build_runner, run_sharded, hexs, log
 
 PID = "C08"
+# the arena entry points parquet_types.c allocates through are wrapped in harness/h_dec.c (exact arena, second pass)
+WRAP = ["-Wl,--wrap=carquet_arena_" + f for f in ("alloc", "calloc", "strdup", "strndup", "memdup")]
 HERE = Path(__file__).resolve().parent
 CORPUS = vlib.VERIF / "corpus" / PID
 
@@ -939,6 +941,103 @@ def gen_thrift(rng, n):
     return cases[:n]
 
 
+# repeated-field family: a Thrift struct may carry the same field id twice (the second time in the long field
+# header form); decoders take the last occurrence.  Every field of every struct of a FULL FileMetaData / PageHeader
+# tree is emitted twice: shorter-then-longer, longer-then-shorter, equal, and (lists) short-then-thousands so that
+# a 64 KiB arena block is left.
+
+class _AllOptional(random.Random):
+    """random source for the tree builders that takes every optional branch (random() < p is always true)"""
+    def random(self):
+        return 0.0
+
+    def getrandbits(self, k):          # keeps choice / randrange on the bit source (not on random())
+        return super().getrandbits(k)
+
+
+def _struct_lists(node, acc):
+    """references to the field list of every struct in the tree, in traversal order"""
+    t, x = node
+    if t == T_STRUCT:
+        acc.append(x)
+        for _, v in x:
+            _struct_lists(v, acc)
+    elif t in (T_LIST, T_SET):
+        et, items = x
+        if et in (T_STRUCT, T_LIST, T_SET, T_MAP):
+            for it in items:
+                _struct_lists((et, it), acc)
+    elif t == T_MAP:
+        kt, vt, items = x
+        for k, v in items:
+            _struct_lists((kt, k), acc)
+            _struct_lists((vt, v), acc)
+    return acc
+
+
+def _resized(v, mode):
+    """a shorter / longer / huge version of a field value (same wire type)"""
+    t, x = v
+    if t in (T_LIST, T_SET):
+        et, items = x
+        if not items:
+            return v
+        if mode == "short":
+            return (t, (et, items[:max(1, len(items) // 2)]))
+        if mode == "long":
+            return (t, (et, (items * 4)[:max(len(items) + 3, 5)]))
+        if mode == "huge":
+            return (t, (et, (items * 5000)[:4000]))
+    if t == T_BIN:
+        if mode == "short":
+            return (t, x[:len(x) // 2])
+        if mode in ("long", "huge"):
+            return (t, x * 4 + b"zz" * (2000 if mode == "huge" else 1))
+    if t == T_STRUCT and mode == "short" and len(x) > 1:
+        return (t, x[:-1])
+    return v
+
+
+def gen_repeated_fields(rng, tier):
+    import copy
+    cases = []
+    bases = []
+    for _ in range(2 if tier == "quick" else 6):
+        for _try in range(50):
+            ar = _AllOptional(rng.getrandbits(32))
+            tr = file_metadata_tree(ar)
+            rgs = [v for fid, v in tr[1] if fid == 4][0][1][1]
+            if rgs:
+                bases.append(("thrift_fm", tr))
+                break
+        bases.append(("thrift_ph", page_header_tree(_AllOptional(rng.getrandbits(32)))))
+        bases.append(("thrift_ph", page_header_tree(rng)))
+    for op, tr in bases:
+        nstruct = len(_struct_lists(tr, []))
+        for si in range(nstruct):
+            nf = len(_struct_lists(tr, [])[si])
+            for fi in range(nf):
+                fid0, v0 = _struct_lists(tr, [])[si][fi]
+                variants = [("short", "long"), ("long", "short"), ("same", "same")]
+                if v0[0] in (T_LIST, T_SET, T_BIN):
+                    variants.append(("short", "huge"))
+                for first, second in variants:
+                    t2 = copy.deepcopy(tr)
+                    fl = _struct_lists(t2, [])[si]
+                    fid, v = fl[fi]
+                    fl[fi] = (fid, _resized(v, first))
+                    dup = (fid, _resized(v, second))
+                    if rng.random() < 0.5:
+                        fl.insert(fi + 1, dup)          # right behind the first occurrence
+                    else:
+                        fl.append(dup)                  # at the end of the struct (a negative id delta)
+                    try:
+                        cases.append(Case(op, 0, 0, None, tc_value(t2), tag="repeated"))
+                    except Exception:
+                        pass
+    return cases
+
+
 def gzip_member(c, level=6):
     co = zlib.compressobj(level, zlib.DEFLATED, 31)
     return co.compress(c) + co.flush()
@@ -1114,10 +1213,10 @@ def build_asan_only():
             vlib.sh(["ar", "rcs", str(lib)] + [str(o) for o in objs], check=True)
         exe = out / "h_dec"
         src = vlib.VERIF / "harness" / "h_dec.c"
-        key = vlib._sha(src.read_bytes(), (vlib.VERIF / "harness" / "hcommon.h").read_bytes(), lib.stat().st_mtime_ns, " ".join(flags))
+        key = vlib._sha(src.read_bytes(), (vlib.VERIF / "harness" / "hcommon.h").read_bytes(), lib.stat().st_mtime_ns, " ".join(flags + WRAP))
         st = out / "h_dec.stamp"
         if not (exe.exists() and st.exists() and st.read_text() == key):
-            p = vlib.sh(["gcc"] + flags + ["-I", str(vlib.REPO / "include"), "-I", str(vlib.REPO / "src"),
+            p = vlib.sh(["gcc"] + flags + WRAP + ["-I", str(vlib.REPO / "include"), "-I", str(vlib.REPO / "src"),
                          "-I", str(vlib.VERIF / "harness"), str(src), str(lib)] + vlib.LINK_LIBS + ["-o", str(exe)])
             if p.returncode != 0:
                 raise vlib.BuildError("ASan-only driver does not build: " + p.stderr[-2000:])
@@ -1243,6 +1342,8 @@ def run_cases(rep, drv, cases, stats, label=""):
             stats["violations"].append((c.op, "does not terminate within the CPU limit: " + d, li))
         elif k == "VIOL":
             stats["violations"].append((c.op, d, li))
+        elif k == "SKIP" and "hang-budget" in str(d):
+            stats["hang_skipped"] = stats.get("hang_skipped", 0) + 1
         elif k == "SKIP" and "unknown-op" in str(d):
             stats["violations"].append((c.op, "driver does not know the entry point (harness out of date)", li))
     return res
@@ -1298,7 +1399,7 @@ def run(tier):
                        "non-trivial = non-empty input; distinct by full case text")
     stats = {"by_op": {}, "by_tag": {}, "ub": {}, "ub_memory_safe": 0, "violations": []}
     try:
-        drv = build_driver("h_dec")
+        drv = build_driver("h_dec", extra=WRAP)
     except vlib.BuildError as e:
         rep.tie_broken("harness/h_dec.c does not build against the current tree: " + str(e)[:600])
         return rep.finish()
@@ -1316,11 +1417,15 @@ def run(tier):
     mm = gen_multimember_suite(random.Random(vlib.SEED * 137 + 11), tier)
     run_cases(rep, drv, mm, stats)
     flush_violations(rep, stats)
+    # 1d. repeated fields in the Thrift structures (second pass of thrift_fm runs on the exact arena)
+    rf = gen_repeated_fields(random.Random(vlib.SEED * 139 + 13), tier)
+    tie_rf = run_cases(rep, drv, rf, stats)
+    flush_violations(rep, stats)
     # 2. generated cases
     total = 300_000 if tier == "quick" else 5_000_000
     chunk = 250_000
     done = 0
-    tie_pool = [r for r in suite_res if tie_ok(r[0])]
+    tie_pool = [r for r in suite_res if tie_ok(r[0])] + [r for r in tie_rf if tie_ok(r[0])]
     while done < total:
         n = min(chunk, total - done)
         cases = gen_cases(n, rng)
@@ -1331,10 +1436,11 @@ def run(tier):
         flush_violations(rep, stats)
         if len(rep.violations) >= 5:
             break
-    rep.cov["calls"] = done + len(corpus) + len(suite) + len(mm)
+    rep.cov["calls"] = done + len(corpus) + len(suite) + len(mm) + len(rf)
     rep.cov["by_entry_point"] = stats["by_op"]
     rep.cov["input_distribution"] = stats["by_tag"]
     rep.cov["ub_reports"] = stats["ub"]
+    rep.cov["cases_skipped_after_hang_budget"] = stats.get("hang_skipped", 0)
     rep.cov["page_header_statistics_views_outside_input"] = stats.get("statsview", 0)
     rep.cov["ub_shift_reports"] = sum(v["count"] for k, v in stats["ub"].items() if k.startswith("shift"))
     rep.cov["ub_reports_memory_safe_in_asan_only_build"] = stats["ub_memory_safe"]
@@ -1368,7 +1474,7 @@ def _hx(b):
 
 def _tie_line(c):
     """-> (engine, runner line) or None when the case is outside what the runner accepts"""
-    if c.data is None or len(c.data) > TIE_MAX_LEN or c.count > TIE_MAX_COUNT or c.count < -TIE_MAX_COUNT:
+    if c.data is None or len(c.data) > (2500 if c.tag == "repeated" else TIE_MAX_LEN) or c.count > TIE_MAX_COUNT or c.count < -TIE_MAX_COUNT:
         return None
     op = c.op
     if op in ("rle_levels", "rle_levels_pref", "rle_all"):
@@ -1477,8 +1583,8 @@ def model_tie(rep, pool, tier):
     pick = random.Random(vlib.SEED * 31 + 5)
     for op, items in sorted(byop.items()):
         pick.shuffle(items)
-        must = [it for it in items if it[0].tag == "nesting"]            # the nesting suite is always compared
-        rest = [it for it in items if it[0].tag != "nesting"]
+        must = [it for it in items if it[0].tag in ("nesting", "repeated")]   # the deterministic suites are always compared
+        rest = [it for it in items if it[0].tag not in ("nesting", "repeated")]
         chosen += must + rest[:per_op]
     jobs = {}
     for item in chosen:
@@ -1528,7 +1634,7 @@ def replay(path):
     if not case:
         print(json.dumps(j, indent=1))
         return 1
-    drv = build_driver("h_dec")
+    drv = build_driver("h_dec", extra=WRAP)
     out, rc, err = vlib.run_lines(drv, [case])
     c = parse_line(case)
     print("case:", case[:400])
